@@ -167,6 +167,14 @@ class Run:
         self.nform += 1
         return mk_id_item(i, self.salt + 7 * self.nform)
 
+    def raw_id(self, i) -> bytes:
+        self.nform += 1
+        return gemlib.enc_id(i, self.salt + 5 * self.nform)
+
+    def form(self) -> int:
+        self.nform += 1
+        return self.salt + 3 * self.nform
+
     def dump(self):
         h = self.eq.h
         reps = ";".join(cid(k.get()) + "=" + ",".join(cid(v.get()) for v in rep.vars) for k, rep in h.registered_reports.items())
@@ -193,17 +201,34 @@ class Run:
     def op(self, op: str) -> str:
         eq, h = self.eq, self.eq.h
         kind, rest = op[0], op[1:]
+        E = gemlib.enc_item
+        self.nops = getattr(self, "nops", 0) + 1
+        raw = (self.salt + self.nops) % 3 != 0      # two thirds of the requests are encoded by the harness's own E5 encoder
         if kind == "R":
+            if raw:
+                body = E("L", [E("U4", [1], self.form()), E("L", [E("L", [self.raw_id(r), E("L", [self.raw_id(v) for v in vids], self.form())], self.form())
+                                                              for r, vids in parse_entries(rest)], self.form())], self.form())
+                return self.ack(eq.request(2, 33, body, self.direct), 34)
             data = [{"RPTID": self.item(r), "VID": [self.item(v) for v in vids]} for r, vids in parse_entries(rest)]
             return self.ack(eq.request(2, 33, {"DATAID": 1, "DATA": data}, self.direct), 34)
         if kind == "L":
+            if raw:
+                body = E("L", [E("U1", [1], self.form()), E("L", [E("L", [self.raw_id(c), E("L", [self.raw_id(r) for r in rs], self.form())], self.form())
+                                                              for c, rs in parse_entries(rest)], self.form())], self.form())
+                return self.ack(eq.request(2, 35, body, self.direct), 36)
             data = [{"CEID": self.item(c), "RPTID": [self.item(r) for r in rs]} for c, rs in parse_entries(rest)]
             return self.ack(eq.request(2, 35, {"DATAID": 1, "DATA": data}, self.direct), 36)
         if kind == "E":
+            if raw:
+                # E5: BOOLEAN is TRUE for ANY non-zero byte (0xFF and 0x80 are what many hosts send)
+                true_byte = [0x01, 0xFF, 0x80, 0x02, 0x7F][self.form() % 5]
+                ids = [self.raw_id(parse_id(x)) for x in rest[2:].split(",")] if rest[2:] else []
+                body = E("L", [E("BOOL", [true_byte if rest[0] == "1" else 0], self.form()), E("L", ids, self.form())], self.form())
+                return self.ack(eq.request(2, 37, body, self.direct), 38)
             ceids = [self.item(parse_id(x)) for x in rest[2:].split(",")] if rest[2:] else []
             return self.ack(eq.request(2, 37, {"CEED": rest[0] == "1", "CEID": ceids}, self.direct), 38)
         if kind == "Q":
-            s, f, body = eq.request(6, 15, self.item(parse_id(rest)), self.direct)
+            s, f, body = eq.request(6, 15, self.raw_id(parse_id(rest)) if raw else self.item(parse_id(rest)), self.direct)
             if f == 0:
                 return "x"
             return self.show_report(body) if f == 16 else f"bad-reply-S{s}F{f}"
@@ -327,6 +352,14 @@ def oracle(run, op, out, before, after):
             strip = lambda st: (st[0], [(k, rs, en if k in was else None) for k, rs, en in st[1]])  # noqa: E731
             if strip(want) != strip(a):
                 return ("accepted-effect", f"{op} accepted but the configuration is not the E5 effect")
+    if op[0] == "E" and out == "a0":
+        # an accepted enable/disable request switches exactly the addressed (or, for an empty list, all) linked events
+        want_en = op[1] == "1"
+        ids = op[3:].split(",") if op[3:] else None
+        for (k, _, en_b), (k2, _, en_a) in zip(b[1], a[1]):
+            addressed = ids is None or k in ids
+            if k != k2 or en_a != (want_en if addressed else en_b):
+                return ("enable-effect", f"{op} answered ERACK 0 but event {k} is {'enabled' if en_a else 'disabled'} afterwards (CEED is TRUE for any non-zero byte)")
     if op[0] == "Q" and scalar(op[1:]):
         c = op[1:]
         entry = next(((rs, en) for k, rs, en in a[1] if k == c), None)
